@@ -220,7 +220,7 @@ def digest_tables(t):
 class DayRecord:
     __slots__ = ("t", "date", "season", "th0", "ss0", "flags0", "wx", "th1", "ss1", "flux", "growth",
                  "storage", "flags1", "ledger", "irr", "gw", "growing", "final_written", "cond0",
-                 "proc_ret", "dap0", "irr_cum0", "zr0", "gs0")
+                 "proc_ret", "dap0", "irr_cum0", "zr0", "gs0", "delayed1")
 
     def __init__(self):
         self.ledger = []
@@ -339,6 +339,7 @@ class Node:
             rec.th1 = np.array(new_cond.th, dtype=float, copy=True)
             rec.ss1 = float(new_cond.surface_storage)
             rec.flags1 = _flags(new_cond)
+            rec.delayed1 = (float(new_cond.delayed_cds), float(new_cond.delayed_gdds))
             rec.growing = bool(new_cond.growing_season)
             rec.flux = np.array(outs.water_flux[t], dtype=float, copy=True)
             rec.growth = np.array(outs.crop_growth[t], dtype=float, copy=True)
